@@ -20,39 +20,52 @@ _P("C02",
    ["every target_feature SIMD kernel (squeeze, RCT, DCT, EPF, Gabor)", "MaybeUninit scratch in SIMD kernels", "runtime CPU feature dispatch"])
 _P("C03",
    "Each arithmetic stage of lossless Modular decoding is the exact inverse of the standard's forward stage for all sample values: "
-   "inverse RCT o forward RCT = id, inverse squeeze o forward squeeze = id, predictors = the standard's formulas, UnpackSigned o PackSigned = id.",
-   "Per-sample arithmetic core only; whole-image exactness against a reference encoder is not a contract.",
-   ["context-tree (MA tree) lookup", "specialised fast paths agreeing with decode_inner", "palette transform", "channel/group assignment", "float samples", "SIMD kernels"])
+   "inverse RCT o forward RCT = id (all 7 types + permutations), inverse squeeze o forward squeeze = id and tendency == smooth_tendency, the 13 "
+   "non-weighted predictors and the weighted sub-predictions == the standard's formulas, palette values == the reference GetPaletteValue "
+   "(explicit, delta, implicit cubes, delta prediction), default squeeze parameters and channel-list bookkeeping of the transforms, UnpackSigned o PackSigned = id.",
+   "Per-sample arithmetic and transform bookkeeping only; whole-image exactness against a reference encoder is not a contract. Geometry is bounded (rows <= 2, squeeze <= 6, palette 2x1).",
+   ["context-tree (MA tree) lookup and decode_inner (incl. previous-channel property order)", "specialised fast paths agreeing with decode_inner",
+    "the weighted predictor's final weighted combination and SelfCorrectingPredictor::record", "channel/group assignment", "float samples", "SIMD kernels"])
 _P("C04",
-   "Entropy decoding kernels invert the specified coding: hybrid-integer decode(encode(v)) = v with exact bit count for every config; "
-   "ANS read_symbol = the standard's state step for every well-formed table; alias table construction; canonical prefix-code decoding; UnpackSigned.",
-   "Kernels under their table invariants; histogram parsing only for the tractable header forms (bounded).",
-   ["general compressed-form ANS histograms", "parse_complex RLE of prefix code lengths", "cluster-map MTF", "LZ77 window semantics beyond one step", "Lehmer permutations"])
+   "Entropy decoding kernels invert the specified coding: hybrid-integer decode(encode(v)) = v with exact bit count for every config; ANS read_symbol "
+   "= the standard's state step for every well-formed table; ANS histogram parsing (single symbol, binary samples, every flat header of a 32-entry "
+   "table) builds the specified distribution and a well-formed injective alias table; simple prefix codes (every alphabet size, every header) give the "
+   "RFC 7932 lengths and order; prefix table lookup; LZ77 distance clamp and special distances; final-state check; UnpackSigned.",
+   "Kernels under their table invariants; histogram parsing on concrete/bounded headers (bounded).",
+   ["compressed-form ANS histograms, log_alphabet_size 8", "parse_complex (RLE of prefix code lengths) and with_code_lengths beyond 3-bit codes",
+    "cluster-map MTF (read_clusters)", "Lehmer permutations (real decoder)", "LZ77 window contents beyond one step"])
 _P("C05",
-   "Blend kernels equal the standard's per-pixel blend formulas with a frame condition outside the rectangle; blend-mode mapping equals the "
-   "standard's table; canvas-reset / full-frame / reference predicates equal the spec predicates; crop-rectangle arithmetic is exact set arithmetic.",
-   "Kernels on tiny grids (bounded geometry, complete over sample values).",
-   ["reference-slot bookkeeping in preserve_current_frame", "offset computation inline in blend()/patch()", "patch parsing", "order in which keyframes are requested"])
+   "Blend-mode mapping equals the standard's table; Replace/Add/Skip kernels equal the per-pixel formulas bit-exactly with a frame condition, the "
+   "multiply / alpha kernels at the exact points (alpha or factor 0 and 1, clamps, swapped operands); patch() copies exactly the clipped rectangle at "
+   "the right source offset; composite_preprocess converts each channel with its own bit depth and decides skip_blending correctly; canvas-reset / "
+   "full-frame / reference predicates equal the spec predicates; crop-rectangle arithmetic is exact set arithmetic.",
+   "Kernels on tiny grids (bounded geometry, complete over sample values); general-case rounding of Mul/Blend/MulAdd is not pinned.",
+   ["reference-slot bookkeeping in preserve_current_frame", "offset computation at the top of blend()", "patches with several channels/targets/alpha planes",
+    "patch parsing", "order in which keyframes are requested"])
 _P("C06",
-   "Region algebra used to translate a requested rectangle into frame coordinates is exact set arithmetic for all i32/u32 inputs; "
-   "padding helpers return supersets that are monotone and map the full image to the full frame.",
-   "Pixel equality of two whole renders is not expressible as a contract; a wrong padding amount that still contains the request is only detected where the exact amount is specified.",
-   ["group filtering in modular.rs / vardct", "render cache reset on region change", "filters' actual support vs padding", "pixel-level equality of crop vs full render"])
+   "Region algebra used to translate a requested rectangle into frame coordinates is exact set arithmetic for all i32/u32 inputs (incl. orientation); "
+   "padding helpers return supersets of the kernel supports that are monotone and map the full image to the full frame.",
+   "Pixel equality of two whole renders is not expressible as a contract; over-padding still verifies.",
+   ["group filtering in modular.rs / vardct", "render cache reset on region change (request_image_region)", "filters' actual support vs padding",
+    "pixel-level equality of crop vs full render", "partly rendered patch references"])
 _P("C08",
-   "Sequential render-handle protocol: on every return (Ok or Err) of a public entry point the handle is not left in the Rendering state, "
-   "so no later call can block on a frame nobody renders.",
-   "Renderer/composite replaced by nondeterministic stubs (assumed contract: may return any Ok/Err, do not touch the handle).",
-   ["'a later success yields exactly the samples of an unfailed decode'", "allocation-failure injection through the real renderer", "multi-threaded interleavings (C20)"])
+   "Sequential render-handle protocol, one contract per entry point and initial state (exhaustive over the states): on every return (Ok or Err) the handle is "
+   "not left in Rendering, Condvar::wait is never reached by a lone caller, and a failed blend is never published as a finished image.",
+   "Renderer/composite replaced by nondeterministic stubs (assumed contract: may return any Ok/Err, do not touch the handle); InProgress(cache) state not instantiated.",
+   ["'a later success yields exactly the samples of an unfailed decode' beyond the state discipline", "do_render / render_loading_frame error classification",
+    "allocation-failure injection through the real renderer", "multi-threaded interleavings (C20)"])
 _P("C09",
-   "Container layer chunking independence: for every parser state satisfying the invariant, feeding a buffer at once or cut at any point "
-   "(re-offering unconsumed bytes) yields the same codestream bytes, events, final state and consumption; by induction over states this covers all histories.",
-   "Bounded buffer length per step (longer than the longest header); complete over states and byte values.",
-   ["JxlImageInner::feed_bytes_inner carry-over buffer", "Frame::feed_bytes section filling", "try_init retry", "render equality"])
+   "Container layer chunking independence by induction: from every parser state satisfying the invariant, one step of the real parser equals the specified "
+   "step (tagged C09), and the specified step satisfies the one-cut prefix lemma for every buffer and cut; box header parsing on a prefix equals parsing on "
+   "the whole; aux box collection is independent of how payload is sliced.",
+   "Bounded buffer length per step (24 bytes, longer than the longest header); the induction over feed histories is argued in comments, not machine-checked.",
+   ["JxlImageInner::feed_bytes_inner carry-over buffer and byte offsets", "Frame::feed_bytes section filling", "try_init retry", "render equality"])
 _P("C10",
-   "Box header parser equals the ISOBMFF box-header specification for all 16-byte prefixes; the container state machine's step contract "
-   "(event order, exact payload slices, byte accounting, rejection of ill-formed layouts) holds from every invariant-satisfying state.",
+   "Box header parser equals the ISOBMFF box-header specification for all inputs; the container state machine's step contract (event order, exact payload "
+   "slices, byte accounting, rejection of ill-formed layouts) holds from every invariant-satisfying state; plain aux boxes are delivered with type and "
+   "exact payload, finalised by AuxBoxEnd or eof().",
    "Step contract bounded in the per-step buffer length; induction over the invariant gives all histories.",
-   ["Brotli decompression (external crate)", "AuxBoxList collection / eof finalisation", "Exif box parsing"])
+   ["Brotli decompression (external crate)", "jbrd payload parser inside AuxBoxList", "Exif box parsing beyond RawExif::new"])
 _P("C11",
    "Prefix lemma for the reader primitives and symbol readers: on any prefix of a buffer each primitive returns exactly what it returns on the "
    "whole buffer or an error classified unexpected_eof(), and a failed read consumes nothing.",
@@ -63,27 +76,34 @@ _P("C12",
    "Scalar paths only.",
    ["SIMD i16 kernels (out of reach of Kani)", "narrow_modular buffer selection", "palette"])
 _P("C13",
-   "Allocation tracker contract: alloc/drop/shrink/expand preserve the ghost budget (bytes_left + outstanding == limit), exhaustion is an Err "
-   "that changes nothing, no wrap-around; grid owners acquire exactly one handle of exactly the buffer size and none on Err.",
-   "Single-threaded atomics; 'nothing leaks on any decoder path' rests on RAII plus a syntactic scan, reported as a side condition.",
-   ["every owner outside jxl-grid (GroupData, MA trees, coefficient scratch)", "RAII on all decoder paths", "OutOfMemory conversions"])
+   "Allocation tracker contract (real kani::requires/ensures on the real functions): alloc/drop/shrink/expand preserve the ghost budget, exhaustion is "
+   "an Err that changes nothing, no wrap-around; AlignedGrid owners acquire exactly one handle of exactly the buffer size and none on Err; ImageBuffer "
+   "float conversions charge the copy to the source's tracker and leave buffer and budget untouched on exhaustion.",
+   "Single-threaded atomics; 'nothing leaks on any decoder path' rests on RAII; the order 'check budget, then allocate' is not observable by the contract.",
+   ["every owner outside jxl-grid / ImageBuffer (GroupData, MA trees, coefficient scratch)", "RAII on all decoder paths", "OutOfMemory conversions"])
 _P("C14",
-   "Header primitives decode exactly what the standard's encodings denote and stop at exactly the right bit: U32 (all selectors), U64 (all forms), "
-   "F16 (all 65536 codes), Enum, Bool, UnpackSigned, ZeroPadToByte; small bundles (size/preview/animation/bit depth) where tractable.",
-   "Primitives complete over values with bounded buffer length; whole ImageMetadata/FrameHeader are too large for CBMC and unverified.",
-   ["ImageMetadata / FrameHeader as a whole", "colour encoding bundles", "TOC offsets and permutation", "extra channel info", "names"])
+   "Header primitives decode exactly what the standard's encodings denote and stop at exactly the right bit: U32, U64 (all forms), F16 (all codes), Enum, "
+   "Bool, UnpackSigned, ZeroPadToByte; size/preview/animation/bit-depth bundles and BlendingInfo parse to the written values with exact bit counts; frame "
+   "geometry (group counts, sizes, index maps) and the full-frame predicate that decides which header fields exist; TOC parse (sizes, offsets, permutation "
+   "and its inverse, section order).",
+   "Primitives complete over values with bounded buffer length; TOC with a stubbed permutation reader (assumed: returns some permutation).",
+   ["ImageMetadata / FrameHeader as a whole", "colour encoding bundles", "Passes round trip", "extra channel info", "names", "real Lehmer permutation decoding"])
 _P("C15",
-   "Orientation coordinate maps equal the EXIF/standard orientation table and are mutually inverse; region orientation maps a rectangle to the "
-   "image of its points; float-to-integer conversion rounds to nearest, clamps and maps NaN as specified; integer-to-float scaling is v/(2^bits-1).",
-   "Coordinate maps complete over all W,H,x,y,o; whole-buffer copy bounded to tiny grids.",
-   ["channel selection/order in ImageStream::from_render", "planar vs interleaved agreement on real renders", "crop regions through the renderer"])
+   "Orientation coordinate maps equal the EXIF/standard table and are mutually inverse; FrameBuffer::from_grids places every sample of every channel (with its own "
+   "grid region) where the orientation map says, for all 8 orientations, and the incremental stream produces the same samples; float-to-integer conversion rounds "
+   "to nearest, clamps and maps NaN as specified; integer-to-float scaling is v/(2^bits-1); float samples incl. zero/subnormals.",
+   "Coordinate maps complete over all W,H,x,y,o; buffer copies bounded to 3x2 regions.",
+   ["ImageStream::from_render construction (needs a Render)", "spot-colour mixing", "planar vs interleaved agreement on real renders"])
 _P("C17",
-   "JPEG bit writer equals T.81 bit packing with byte stuffing and padding; canonical Huffman code construction equals T.81 Annex C; "
-   "header length arithmetic never under/overflows for parser-reachable values.",
+   "JPEG bit writer equals T.81 bit packing with byte stuffing and padding; canonical Huffman code construction equals T.81 Annex C; app-marker and "
+   "Huffman-code parsers admit only what the consumers can handle; header length arithmetic never under/overflows; EOB-run accounting of progressive "
+   "first and refinement passes equals T.81 G.1.2; restart markers and DC prediction.",
    "Bit-level core and header arithmetic only.",
-   ["byte-exactness of a whole reconstruction", "jpeg_reconstruction_status (needs a JxlImage)", "scan scripts / progressive refinement", "Brotli leftover data"])
+   ["byte-exactness of a whole reconstruction", "jpeg_reconstruction_status (needs a JxlImage)", "ScanMoreInfo::parse (HashMap)", "ScanInfo ranges vs consumers",
+    "padding-bit order (undecided)", "Brotli leftover data"])
 _P("C18",
-   "ICC command kernels: shuffle2/shuffle4 equal the matrix transposition of the standard for every length (Verus, unbounded); "
-   "header prediction, context function and varint equal their specifications.",
-   "Kernels only; the command interpreter decode_icc is covered for panic-freedom on bounded streams.",
-   ["order-0/1/2 predictor, tag-list shortcuts and size checks inline in decode_icc (functional)", "entropy layer (C04)", "read_icc glue"])
+   "ICC decompression: shuffle2/shuffle4 equal the matrix transposition for every length (Verus, unbounded); header prediction, context function and "
+   "varint equal their specifications; decode_icc equals an independent specification for every command shape (header, tag list incl. shortcuts and "
+   "implicit sizes, copy/shuffle/predicted runs of every width and order, rejections), with symbolic data bytes.",
+   "decode_icc per command shape with concrete command bytes and symbolic data (bounded).",
+   ["symbolic command bytes / long streams", "read_icc (entropy-decoder side, C04)", "missing-varint truncations in main-section commands"])
